@@ -151,6 +151,12 @@ print("ok" if out == want and reads[0] == 5 else
       "DEFECT: outputs %r (expected %r), %d coefficient reads for 5 samples"
       % (out, want, reads[0]))
 '''),
+  ("12 C06 a constant Fraction output gain a0 is divided piecewise", r"""
+out = list(ZFilter([1], [Fraction(1, 3)])([Fraction(1), Fraction(1)],
+                                            zero=Fraction(0)))
+print("ok" if out == [3, 3] else
+      "DEFECT: y = x / a0 with a0 = 1/3 gives %r (expected [3, 3])" % (out,))
+"""),
 ]
 
 
